@@ -440,11 +440,11 @@ fn bases() -> Vec<(RefOnt, &'static str)> {
         Facts::ann(Kind::Orpha, 77, "Orpha one", Some(13)),
     ];
     out.push((RefOnt::derive(&f), "consecutive term ids with gaps"));
-    // 8. long names: disease names are not limited by the binary format (gene symbols and term names are, at 255
+    // 8. long and non-ASCII names: disease names are not limited by the binary format (gene symbols and term names are, at 255
     // bytes - they stay just below it here, so that a rename keeps them legal), so every comparison after a round trip must stay empty
     let mut f = Facts { version: (2024, 2, 29), ..Default::default() };
-    f.terms = vec![t(1, "All"), t(118, "Phenotypic abnormality"), t(200, &"n".repeat(215))];
-    f.edges = vec![(118, 1), (200, 118)];
+    f.terms = vec![t(1, "All"), t(118, "Phenotypic abnormality"), t(200, &"n".repeat(215)), t(201, "\u{3b2}-cell dysfunction"), t(202, "Caf\u{e9}-au-lait spots, grade 1")];
+    f.edges = vec![(118, 1), (200, 118), (201, 118), (202, 201)];
     f.anns = vec![
         Facts::ann(Kind::Gene, 11, &"G".repeat(215), Some(200)),
         Facts::ann(Kind::Omim, 600_001, &format!("{} disease", "long ".repeat(60)), Some(200)),
